@@ -23,7 +23,7 @@ class Ctx:
         self.unit, self.case, self.tier = unit, case, tier
         self.state = State()
         global LIB
-        LIB = lib_for(getattr(unit, "prop", None))      # `from pyvc.vc import LIB` in a contract = the current table
+        LIB = lib_for(getattr(unit, "lib_prop", None) or getattr(unit, "prop", None))      # `from pyvc.vc import LIB` in a contract = the current table
         LIB.activate()
         self.interp = Interp(LIB, summaries=dict(unit.summaries), loop_hints=dict(unit.loop_hints))
         self.interp.loop_opts = dict(getattr(unit, "loop_opts", None) or {})
@@ -343,6 +343,12 @@ def run_unit(unit, case, tier="quick"):
         # side obligations (safety)
         safety = ObResult(f"{uname}:safety")
         side = ctx.state.side
+        # a unit that re-uses the setup of another property's unit (same AST, same symbolic inputs) may leave the side
+        # obligations to their owner: then NO safety obligation is emitted here (nothing is claimed), only the count is recorded
+        side_owner = getattr(unit, "side_obligations_owner", None)
+        if side_owner:
+            res["side_obligations_left_to"] = {"owner": side_owner, "count": len(side)}
+            side = []
         seen = set()
         for so in side:
             assum = list(so.pc) if getattr(so, "explicit", False) else list(ctx.state.facts) + list(so.pc)
@@ -357,7 +363,7 @@ def run_unit(unit, case, tier="quick"):
                 clause_res.setdefault(cn, ObResult(f"{uname}:{cn}")).add(v, so.kind)
                 continue
             safety.add(v, so.kind)
-        if not side:
+        if not side and not side_owner:
             safety.add(solve.Verdict(solve.PROVED, "engine", 0, reason="no side obligations"))
         # hidden state: the function (and the repo helpers inlined into it) must not use module-level mutable state
         hs = ObResult(f"{uname}:no-module-level-mutable-state")
@@ -367,7 +373,14 @@ def run_unit(unit, case, tier="quick"):
         res["obligations"].append(hs.finish().as_dict())
         res["obligations"].append(excfree.finish().as_dict())
         res["obligations"].append(cover.finish().as_dict())
-        res["obligations"].append(safety.finish().as_dict())
+        if not side_owner:
+            res["obligations"].append(safety.finish().as_dict())
+        if getattr(unit, "clauses_vacuous_without_return", False) and nret == 0 and outcomes and len(specified_raises) == len(outcomes):
+            # a unit whose clauses speak about returned values only (frame/file clauses of C18): when every path raises an
+            # exception the unit's `raises` accepts, they hold vacuously
+            for ob in clause_res.values():
+                if not ob.subs:
+                    ob.add(solve.Verdict(solve.PROVED, "engine", 0, reason="no returning path: every path raises as specified"))
         for cn, ob in clause_res.items():
             res["obligations"].append(ob.finish().as_dict())
         res["summaries_used"] = sorted(interp.used_summaries)
